@@ -13,6 +13,48 @@ import z3
 
 _counter = itertools.count()
 
+# Integer back end: 0 -> z3 Int (mathematical integers); W > 0 -> bit-vectors of W bits in which every
+# term is kept inside [-2^(W-1), 2^(W-1)) by interval analysis (a term whose interval may leave that range
+# is refused, so the bit-vector arithmetic never wraps and coincides with integer arithmetic).
+import os as _os
+INT_BITS = int(_os.environ.get("SYMX_INT_BITS", "0") or 0)
+
+
+def ival(n):
+    return z3.BitVecVal(int(n), INT_BITS) if INT_BITS else z3.IntVal(int(n))
+
+
+def ivar(name):
+    return z3.BitVec(name, INT_BITS) if INT_BITS else z3.Int(name)
+
+
+def is_ival(e):
+    return z3.is_bv_value(e) if INT_BITS else z3.is_int_value(e)
+
+
+def ival_of(e):
+    if INT_BITS:
+        v = e.as_long()
+        return v - (1 << INT_BITS) if v >= (1 << (INT_BITS - 1)) else v
+    return e.as_long()
+
+
+def isum(terms):
+    terms = list(terms)
+    if not terms:
+        return ival(0)
+    r = terms[0]
+    for t in terms[1:]:
+        r = r + t
+    return r
+
+
+def _chk(lo, hi, what="arithmetic"):
+    if INT_BITS:
+        lim = 1 << (INT_BITS - 1)
+        if lo is None or hi is None or lo < -lim or hi >= lim:
+            raise Unsupported("%s may leave the %d-bit integer range [%s, %s]" % (what, INT_BITS, lo, hi))
+
 
 class Unsupported(BaseException):
     """The interpreter met a construct it has no model for (a harness error, never a verdict)."""
@@ -280,11 +322,11 @@ def zi(x):
     if isinstance(x, SInt):
         return x.e
     if isinstance(x, bool):
-        return z3.IntVal(int(x))
+        return ival(int(x))
     if isinstance(x, int):
-        return z3.IntVal(x)
+        return ival(x)
     if isinstance(x, SBool):
-        return z3.If(x.e, z3.IntVal(1), z3.IntVal(0))
+        return z3.If(x.e, ival(1), ival(0))
     raise Unsupported("not an integer: %r" % (x,))
 
 
@@ -303,13 +345,17 @@ def bounds(x):
 def mk_int(e, lo=None, hi=None, **kw):
     if lo is not None and hi is not None and lo == hi:
         return lo
-    if z3.is_int_value(e):
-        return e.as_long()
+    if is_ival(e):
+        return ival_of(e)
+    _chk(lo, hi)
     return SInt(e, lo, hi, **kw)
 
 
 def fresh_int(name, lo=None, hi=None):
-    return SInt(z3.Int("%s!%d" % (name, next(_counter))), lo, hi)
+    if INT_BITS and (lo is None or hi is None):
+        lim = 1 << (INT_BITS - 2)
+        lo, hi = (-lim if lo is None else lo), (lim - 1 if hi is None else hi)
+    return SInt(ivar("%s!%d" % (name, next(_counter))), lo, hi)
 
 
 def fresh_bool(name):
@@ -379,7 +425,9 @@ def int_floordiv(a, b):
     c = int(b)
     if c <= 0:
         raise Unsupported("floor division by a non-positive constant with symbolic dividend")
-    # z3 div on Int is floor division for positive divisors
+    # z3 div on Int is floor division for positive divisors; on bit-vectors it truncates (same for a >= 0)
+    if INT_BITS and (a.lo is None or a.lo < 0):
+        raise Unsupported("floor division of a possibly negative symbolic value in bit-vector mode")
     return mk_int(a.e / c, None if a.lo is None else a.lo // c, None if a.hi is None else a.hi // c)
 
 
@@ -391,7 +439,9 @@ def int_mod(a, b):
     c = int(b)
     if c <= 0:
         raise Unsupported("modulo by a non-positive constant with symbolic dividend")
-    return mk_int(a.e % c, 0, c - 1)
+    if INT_BITS and (a.lo is None or a.lo < 0):
+        raise Unsupported("modulo of a possibly negative symbolic value in bit-vector mode")
+    return mk_int((z3.URem(a.e, ival(c)) if INT_BITS else a.e % c), 0, c - 1)
 
 
 def _mk_ite_record(g, a, b):
@@ -533,6 +583,8 @@ def to_bv(x, w):
             e = z3.BitVecVal(vals[-1] % (1 << w), w)
             for v in reversed(vals[:-1]):
                 e = z3.If(x.e == v, z3.BitVecVal(v % (1 << w), w), e)
+        elif INT_BITS:
+            e = x.e if w == INT_BITS else (z3.Extract(w - 1, 0, x.e) if w < INT_BITS else z3.SignExt(w - INT_BITS, x.e))
         else:
             e = z3.Int2BV(x.e, w)
         x._bv[w] = e
@@ -569,6 +621,11 @@ def mk_bv(e, w, signed=False):
 
 def bv_to_int(x):
     """SInt view of an SBV."""
+    if INT_BITS:
+        if x.w >= INT_BITS:
+            raise Unsupported("conversion of a %d-bit vector to a %d-bit integer" % (x.w, INT_BITS))
+        e = z3.SignExt(INT_BITS - x.w, x.e) if x.signed else z3.ZeroExt(INT_BITS - x.w, x.e)
+        return SInt(e, -(1 << (x.w - 1)) if x.signed else 0, ((1 << (x.w - 1)) - 1) if x.signed else (1 << x.w) - 1)
     if x.signed:
         return SInt(z3.BV2Int(x.e, True), -(1 << (x.w - 1)), (1 << (x.w - 1)) - 1)
     return SInt(z3.BV2Int(x.e, False), 0, (1 << x.w) - 1)
@@ -653,9 +710,9 @@ def float_tab_trunc(t):
     """int(<SFloatTab>) -> SInt"""
     groups = _group_entries(t.entries, lambda f: int(f))
     vals = [k for k, _ in groups]
-    e = z3.IntVal(groups[-1][0])
+    e = ival(groups[-1][0])
     for k, conds in reversed(groups[:-1]):
-        e = z3.If(conds[0] if len(conds) == 1 else z3.Or(*conds), z3.IntVal(k), e)
+        e = z3.If(conds[0] if len(conds) == 1 else z3.Or(*conds), ival(k), e)
     return mk_int(e, min(vals), max(vals), dom=frozenset(vals))
 
 
